@@ -209,8 +209,19 @@ class Charset(BaseEngine):
         plan = {'prop': prop, 'charset': cs, 'content': self.gen_content(rng, cs), 'direction': direction,
                 'via': pick(rng, ('file', 'filename')),
                 'nested': pick(rng, (None, None, None, 'ok', 'fail')),
-                'read_cap': pick(rng, (0, 0, 0, 16, 40, 4096))}
-        if direction == 'chain':
+                'read_cap': pick(rng, (0, 0, 0, 16, 40, 4096)), 'in_thread': rng.random() < 0.1}
+        if idx % 400 == 77:
+            # one long text whose encoded length sits where the length prefix grows to three bytes: fault-free
+            # round trip only (the failure-point sweep over such a file is C07-sized work)
+            cs2 = pick(rng, ('latin1', 'utf-8', 'utf-16', 'shift_jis', 'cp1252'))
+            base = pick(rng, ('', 'é', 'あ', 'xy')) if cs2 not in ('latin1', 'cp1252') else pick(rng, ('', 'é', 'xy'))
+            txt = pad_to_encoded_length(base, cs2, pick(rng, (16383, 16384, 16385, 16500, 32768)))
+            if txt is not None:
+                plan.update({'charset': cs2, 'direction': 'save', 'big': True, 'nested': None,
+                             'content': {'type': 1, 'tpb': 96, 'late_charset': False, 'ctor_tracks': False,
+                                         'tracks': [[['text', pick(rng, sorted(TEXT_TYPES)), txt, 0],
+                                                     ['note', 60, 10]]]}})
+        if direction == 'chain' and not plan.get('big'):
             calls = []
             pool = [''.join(pick(rng, POOL[:10]) for _ in range(rng.randint(1, 3))) for _ in range(3)]
             for _ in range(rng.randint(2, 6)):
@@ -232,6 +243,24 @@ class Charset(BaseEngine):
         _vc = simtime.VClock(5000.0)
         simtime.activate(_vc.read, _vc.sleep)
         try:
+            if plan.get('in_thread'):
+                # the application does its file work in a worker thread (one thread, run to completion while the
+                # main thread waits: no interleaving, but not the thread that imported the library)
+                import threading
+                box = {}
+
+                def work():
+                    try:
+                        box['out'] = self._run_inner(prop, plan, keep_log)
+                    except BaseException as e:      # noqa: B036 - handed to the waiting thread
+                        box['exc'] = e
+                t = threading.Thread(target=work, name='verif-worker')
+                t.start()
+                t.join()
+                if 'exc' in box:
+                    raise box['exc']
+                box['out']['stats']['fault:calls_made_in_a_worker_thread'] += 1
+                return box['out']
             return self._run_inner(prop, plan, keep_log)
         finally:
             simtime.deactivate()
@@ -421,6 +450,11 @@ class Charset(BaseEngine):
                                               f'{texts_of(back2) if tag == "ok" else back2!r}')
         if cs in ('utf-16', 'utf-32') and any(s for _, s in want):
             stats['probe:utf16_bom_roundtrip'] += 1
+        if plan.get('big'):
+            stats['fault:text_of_16k_encoded_bytes'] += 1
+            stats['_nontrivial'] += 1
+            cov.add(f'big|{cs}')
+            return
         # the charset belongs to the load/save call only: not to an iteration of the loaded file that is under way
         for how in ('iter', 'play'):
             try:
